@@ -28,6 +28,8 @@
 (*     while conns still has the connection                                  (taintConns)          *)
 (*  D3 doConnect: slot Setup done, plug Setup fails: repo rolled back, slot profile stale          *)
 (*  D4 setup-profiles: a failing Setup (SetupMany continues) / partial effects (taintProf)         *)
+(*  D5 undoDisconnect of a Forget of an inactive (undesired) connection whose plug and slot exist  *)
+(*     re-connects it in the repository while restoring undesired=true       (taintConns)          *)
 (***************************************************************************************************)
 EXTENDS Naturals, Sequences, FiniteSets, TLC
 
@@ -116,6 +118,11 @@ ADT(s)     == T("auto-disconnect", "", s, "", "")
 UnlinkT(s) == T("unlink-snap", "", s, "", "")
 RmProfT(s) == T("remove-profiles", "", s, "", "")
 DiscardT(s) == T("discard-snap", "", s, "", "")
+\* a later task of the same change: the task sets returned by Connect/Disconnect/Forget are composed with
+\* further tasks by their callers (the package's own undo tests append an "error-trigger" task); it waits for
+\* the whole set, has no effect and no undo handler; a fault on its entry undoes every task of the set
+TailT == T("tail", "", "", "", "")
+WithTail(f) == f @@ (TailT :> NewTask(DOMAIN f))
 
 VARIABLES installed, inrepo, conns, repo, profiles,
           phase,       \* "idle" | "run"
@@ -165,10 +172,10 @@ Ops == [name : {"connect", "disconnect", "forget"}, c : ConnIds, s : {""}]
        \cup [name : {"install", "remove"}, c : {""}, s : Snaps]
 
 InitialTasks(o) ==
-    CASE o.name = "connect"    -> ChainFn(ConnPre(o.c, "manual") \o ConnPost(o.c), {}, {})
-      [] o.name = "disconnect" -> ChainFn(DiscSeq(o.c, "manual"), {}, {})
-      [] o.name = "forget"     -> IF o.c \in repo THEN ChainFn(DiscSeq(o.c, "forget"), {}, {})
-                                  ELSE ChainFn(<<DiscT(o.c, "forget")>>, {}, {})
+    CASE o.name = "connect"    -> WithTail(ChainFn(ConnPre(o.c, "manual") \o ConnPost(o.c), {}, {}))
+      [] o.name = "disconnect" -> WithTail(ChainFn(DiscSeq(o.c, "manual"), {}, {}))
+      [] o.name = "forget"     -> IF o.c \in repo THEN WithTail(ChainFn(DiscSeq(o.c, "forget"), {}, {}))
+                                  ELSE WithTail(ChainFn(<<DiscT(o.c, "forget")>>, {}, {}))
       [] o.name = "install"    -> ChainFn(<<SP(o.s, "first"), LinkT(o.s), ACT(o.s), PostT(o.s)>>, {}, {})
       [] o.name = "remove"     -> ChainFn(<<ADT(o.s), UnlinkT(o.s), RmProfT(o.s), DiscardT(o.s)>>, {}, {})
 
@@ -301,9 +308,11 @@ UndoDisconnect(t) ==
     IN IF ~tasks[t].hasOld THEN Same(TRUE)
        ELSE IF t.mode = "forget" /\ ~(Ends(c) \subseteq inrepo)
             THEN Res(TRUE, installed, inrepo, cs1, repo, profiles, FALSE, Absent, EmptyTasks, FALSE, FALSE)
+       \* D5: the connection is re-connected in the repository even when the saved entry was not active
+       \* (Forget of an undesired connection whose plug and slot exist)
        ELSE Res(TRUE, installed, inrepo, cs1, r1,
                 SetupSeq(profiles, <<SlotSnap[c], PlugSnap[c]>>, r1, 0, 1, TRUE), FALSE, Absent, EmptyTasks,
-                FALSE, FALSE)
+                ~Active(tasks[t].old), ~Active(tasks[t].old))
 
 \* handlers.go setupProfilesForAppSet (doSetupProfiles, undoSetupProfiles of an installed snap, undo of
 \* remove-profiles): disconnect the snap, re-add it, reload its connections from conns, set up security
@@ -351,7 +360,7 @@ UndoEffect(t) ==
       [] t.kind = "link-snap"       -> [Same(TRUE) EXCEPT !.installed = installed \ {t.s}]
       [] OTHER -> Same(TRUE)
 
-HasUndo(t) == t.kind \notin {"auto-disconnect", "discard-snap"}
+HasUndo(t) == t.kind \notin {"auto-disconnect", "discard-snap", "tail"}
 
 ---------------------------------------------------------------------------------------------------
 (* The runner *)
